@@ -329,6 +329,10 @@ func (w *World) doOp(i int, op *Op) {
 // deadline in bursts, the node is restarted a few times; then things settle.
 func (w *World) heal() {
 	w.healing = true
+	// faults stop: that includes crash points the nodes did not reach during the fault phase
+	// (a node that did little would otherwise be crashed by its K-th operation somewhere in
+	// the heal or canary phase, taking the canary's registrations with it)
+	w.Sim.DisableCrashPoints()
 	w.Net.Down = false
 	h := w.Plan.Heal
 	for _, n := range w.Nodes {
